@@ -1,6 +1,7 @@
 import Grexv.Model.Api
 import Grexv.Lemmas.Lex
 import Grexv.Lemmas.EndToEnd
+import Grexv.Lemmas.EndToEndR
 
 /-!
 # C07 — build() is total and returns a syntactically valid regex; panics only where documented
@@ -142,6 +143,20 @@ theorem output_valid_verbose (cfg : Config) (hp : VerbosePrintNA cfg) (env : Env
     (h : regExpFrom cfg env ws = .ok st) (hseg : ∀ w ∈ storedCases cfg env ws, SegOK env w) (hws : ws ≠ []) :
     ∃ P, Spec.parse (fmtRegExp cfg st.finalAst) = some (⟨cfg.ci, true⟩, P) :=
   classes_valid_verbose cfg hp env ws st h hseg hws
+
+/-- **C07 (validity with repetition conversion, all inputs, any anchors)** `-r` with positive thresholds, every subset of the class
+options × capturing groups × `-e` × `-i` × any anchors, plain printing; stored test cases of at most 1000 graphemes (a larger count
+is refused by the regex crate: the pattern `a{1001}` is outside this theorem and compared per input): whichever of its three candidates
+`RegExp::from` keeps, the returned text — with `x{m,n}`, `(?:unit){m,n}` and nested repetitions — is accepted by the model of
+`Regex::new` -/
+theorem output_valid_with_repetitions (cfg : Config) (hp : RepPrintNA cfg) (env : Env) (ws : List Str) (st : Stages)
+    (h : regExpFrom cfg env ws = .ok st) (hseg : ∀ w ∈ storedCases cfg env ws, SegOK env w)
+    (hlen : ∀ w ∈ storedCases cfg env ws, (clusterOfPieces (env.segOf w)).length ≤ 1000) (hws : ws ≠ []) :
+    ∃ P, Spec.parse (fmtRegExp cfg st.finalAst) = some (⟨cfg.ci, false⟩, P) :=
+  rep_valid_na cfg hp env ws st h hseg
+    (fun w hw => by have := hlen w hw; rwa [clusterOfPieces_eq, List.length_map] at this) hws
+
+example : RepPrintNA { rep := true, noStart := true, noEnd := true, ci := true, space := true } := ⟨rfl, by decide, rfl, rfl, rfl⟩
 
 /-! ## syntactic validity at the literal level (generated escape lists) -/
 
